@@ -18,6 +18,8 @@ for r in reps:
             bad[(o["status"], o["name"], o["where"])] += 1
     for (st, nm, wh), n in list(bad.items())[:12]:
         print(f"      - {st} {nm} x{n} {wh}")
+    for sm in r.get("suspicious", []):
+        print("      !! SUSPICIOUS:", sm)
     for m in r.get("models", [])[:int(os.environ.get("SHOW_MODELS", "1"))]:
         print("      model:", json.dumps(m)[:int(os.environ.get("MODEL_CHARS", "500"))])
 print(f"wall {time.time() - t0:.1f}s")
